@@ -248,6 +248,7 @@ void harness_reinit(void)
 	r = event_base_loop(base, EVLOOP_NONBLOCK);   /* the parent has been through a wait: registrations are in the kernel */
 	VP_ASSERT(waits_on_new == 1, "C11: parent waited once");
 
+#ifndef VP_DEBUG_NO_REINIT
 	/* ---- fork(): we are the child ---- */
 	vp_k_fork();
 	op0 = base->sig.ev_signal_pair[0]; op1 = base->sig.ev_signal_pair[1]; on0 = base->th_notify_fd[0];
@@ -255,6 +256,9 @@ void harness_reinit(void)
 	VP_ASSERT(r == 0, "C11: event_reinit succeeds");
 	VP_ASSERT_NO_LOCKS("event_reinit");
 	check_after_reinit(op0, op1, on0);
+#else
+	vp_k_forked = 1; vp_k_nep = 2; vp_kf[old_epfd].inst = 1; vp_kep[1] = vp_kep[0];
+#endif
 #ifndef KF_SKIP_DOUBLE_CLOSE
 	VP_ASSERT(vp_k_close_ebadf == 0, "C11: event_reinit closes a descriptor number it has already closed (double close; another thread's new descriptor could be hit)");
 #endif
